@@ -18,6 +18,7 @@ type loopInfo struct {
 	parent  *loopInfo
 	spec    *LoopSpec
 	order   []*ssa.BasicBlock // blocks in RPO
+	freshPhis map[*ssa.Phi]bool
 }
 
 type edgeState struct {
@@ -677,6 +678,11 @@ func (b *bodyRun) runLoop(li *loopInfo) {
 		for _, it := range items {
 			e.oblige(es.st, "inv-keep", label+"/"+it.label, it.eval(es.st, phiVals), pos)
 		}
+		for p := range li.freshPhis {
+			if !valueIsLocal(phiVals[p]) {
+				e.oblige(es.st, "inv-keep", label+"/loop-carried "+p.Comment+" holds only storage of this call", c.False(), pos)
+			}
+		}
 		if dec0 != nil {
 			d1 := e.evalSpecIndex(*li.spec.Decreases, b.specVars(names, over), es.st, e.entryState(), label+" decreases")
 			e.oblige(es.st, "variant", label, c.And(c.BVSle(bv64(c, 0), dec0), c.BVSlt(d1, dec0)), pos)
@@ -705,7 +711,17 @@ func (b *bodyRun) havoc(st *State, phis []*ssa.Phi, writes map[string]*Loc, li *
 		if name == "" {
 			name = p.Name()
 		}
+		entryLocal := valueIsLocal(st.env[p])
 		v := e.fresh(p.Type(), fmt.Sprintf("%s_%s_l%d", b.fn.Name(), name, li.ordinal))
+		if entryLocal {
+			// a loop-carried slice / pointer that only ever holds storage of this
+			// call (checked again at every back edge) stays writable
+			markFresh(v)
+			if li.freshPhis == nil {
+				li.freshPhis = map[*ssa.Phi]bool{}
+			}
+			li.freshPhis[p] = true
+		}
 		st.env[p] = v
 		if s, ok := v.(Scalar); ok && s.T.Sort == smt.BV(64) && real {
 			e.cands = append(e.cands, s.T)
@@ -862,3 +878,42 @@ func (e *Exec) paramValue(st *State, p *ssa.Parameter) Value {
 }
 
 func (e *Exec) entryState() *State { return e.entry }
+
+// valueIsLocal: a slice / pointer value all of whose targets are local (or
+// declared fresh) objects, or nil.
+func valueIsLocal(v Value) bool {
+	switch x := v.(type) {
+	case *SliceV:
+		for _, al := range x.Alts {
+			if al.Loc != nil && al.Loc.Obj.Pre && !al.Loc.Obj.Fresh {
+				return false
+			}
+		}
+		return true
+	case *PtrV:
+		for _, al := range x.Alts {
+			if al.Loc != nil && al.Loc.Obj.Pre && !al.Loc.Obj.Fresh {
+				return false
+			}
+		}
+		return true
+	}
+	return false
+}
+
+func markFresh(v Value) {
+	switch x := v.(type) {
+	case *SliceV:
+		for _, al := range x.Alts {
+			if al.Loc != nil {
+				al.Loc.Obj.Fresh = true
+			}
+		}
+	case *PtrV:
+		for _, al := range x.Alts {
+			if al.Loc != nil {
+				al.Loc.Obj.Fresh = true
+			}
+		}
+	}
+}
